@@ -5,7 +5,7 @@ TrajectoryCalc._init_trajectory (muzzle velocity used by the solver), Atmo.__ini
 All magnitudes symbolic; loop-free, so the result is for all values in the stated ranges.
 """
 from symx.runner import harness
-from harness.common import pybc, TEMP_UNITS, VEL_UNITS, c_of, mps_of, with_preferred
+from harness.common import pybc, mkrow, TEMP_UNITS, VEL_UNITS, c_of, mps_of, with_preferred
 
 FUNCS = ['py_ballisticcalc.munition.Ammo.get_velocity_for_temp', 'py_ballisticcalc.munition.Ammo.calc_powder_sens',
          'py_ballisticcalc.trajectory_calc._trajectory_calc.TrajectoryCalc._init_trajectory']
@@ -147,6 +147,24 @@ def c17_launch(ctx, powder_given, use, bare_unit=None):
     eff = pw if powder_given else air
     want = mv * (1 + mod * (eff - t0) / 15) if use else mv
     ctx.check_eq('launch_velocity', calc.muzzle_velocity, want * 3.2808399, rel=1e-9, abs=1e-5)
+    # every public entry point that integrates launches with that velocity: the velocity in force when the integration is entered
+    # (the integration itself is replaced by a recorder that answers with a hit, so that a zero search ends at once)
+    seen = []
+
+    def recorder(shot_info, maximum_range, record_step, filter_flags, time_step=0.0):
+        seen.append(calc.muzzle_velocity)
+        rows = [mkrow(p, time=0.0, dist_ft=0.0, height_ft=-calc.sight_height), mkrow(p, time=1.0, dist_ft=maximum_range, height_ft=0.0)]
+        return rows if filter_flags & p.TrajFlag.RANGE else rows[-1:]
+    calc._integrate = recorder
+    for entry in ('trajectory', 'zero_angle'):
+        del seen[:]
+        if entry == 'trajectory':
+            calc.trajectory(shot, p.Distance.Foot(300.0), p.Distance.Foot(100.0))
+        else:
+            calc.zero_angle(shot, p.Distance.Foot(300.0))
+        ctx.check('launch_velocity', len(seen) >= 1, info={'entry': entry, 'integrations': len(seen)})
+        for v in seen:
+            ctx.check_eq('launch_velocity', v, want * 3.2808399, rel=1e-9, abs=1e-5, info={'entry': entry})
 
 
 @harness('C17.reuse', 'C17', functions=FUNCS, must_reach=['check:launch_velocity_after_in_place_changes'], engine_opts={'div_check': False},
